@@ -24,7 +24,7 @@ ASSUMPTIONS = ['reads of the Go runtime\'s own files outside T (/proc, /sys, /et
 
 ATTEMPTS = ['symlink-abs-inside-then-out', 'symlink-abs-dir-then-out', 'parent-dotdot', 'parent-prefix-sibling', 'parent-root-file-sibling', 'symlink-file', 'symlink-file-child', 'symlink-dir-input', 'symlink-dir-parent', 'parent-absolute',
             'parent-wildcard', 'symlink-chain', 'reenter-path', 'reenter-symlink', 'symlink-absolute', 'control']
-SPELLINGS = ['name', 'dot', 'dotdot', 'absolute', 'via-symlink']
+SPELLINGS = ['name', 'dot', 'dotdot', 'absolute', 'via-symlink', 'empty', 'long-empty', 'trailing-slash', 'dot-slash']
 ROOTS = ['root', 'conf', 'r']
 
 
@@ -137,6 +137,12 @@ def invocation(T, case, R, inp):
         return os.path.join(root, 'sub'), '..', os.path.join('..', inp)
     if sp == 'absolute':
         return T, os.path.realpath(root), os.path.join(R, inp)
+    if sp in ('empty', 'long-empty'):
+        return root, '', inp
+    if sp == 'trailing-slash':
+        return T, R + '/', os.path.join(R, inp)
+    if sp == 'dot-slash':
+        return T, './' + R, './' + os.path.join(R, inp)
     return T, 'rootlink', os.path.join('rootlink', inp)
 
 
@@ -172,6 +178,8 @@ def run_cli(ctx, res, case, mode, strace):
     R, inp = build(T, case, mode)
     cwd, rarg, ipath = invocation(T, case, R, inp)
     argv = [ctx.bin('bkl'), '-f', 'json', '-r', rarg] + (['-P'] if case.get('skipP') else []) + [ipath]
+    if case['spelling'] == 'long-empty':
+        argv = [ctx.bin('bkl'), '-f', 'json', '--root-path='] + (['-P'] if case.get('skipP') else []) + [ipath]
     if case.get('skipP') and case.get('salt', 0) % 2:
         argv = [ctx.bin('bkl'), '-P', '-f', 'json', ipath, '-r', rarg]
     trace = ''
